@@ -206,10 +206,14 @@ def _build(sx, template, server):
     return out
 
 
-def rx(sx, server, fbd, compress, template, split):
-    from twisted.python.failure import Failure
-    from twisted.internet.error import ConnectionDone
-    clock, trace, ep, rnd = wslib.open_one(sx, server, dict(failByDrop=fbd))
+def rx(sx, server, fbd, compress, template, split, fw="twisted"):
+    if fw == "asyncio":
+        # the asyncio adapter queues what data_received() gets and decodes it from a loop callback: "queued:c" hands over two segments before
+        # the loop runs, "stepped:c" lets the loop run in between - the verdict is the same as for the whole stream
+        loop, trace, ep, rnd = wslib.open_one_aio(sx, server, dict(failByDrop=fbd))
+        clock = None
+    else:
+        clock, trace, ep, rnd = wslib.open_one(sx, server, dict(failByDrop=fbd))
     p = ep.p
     if compress:
         p._perMessageCompress = _IdentityPMCE()
@@ -217,7 +221,18 @@ def rx(sx, server, fbd, compress, template, split):
     n = len(data)
     exc = None
     try:
-        if split == "whole":
+        if fw == "asyncio":
+            mode, c = split.split(":")
+            c = int(c)
+            p.data_received(data[:c])
+            if mode == "stepped":
+                wslib.run_loop(loop)
+            if ep.t.closed is None:
+                p.data_received(data[c:])
+            wslib.run_loop(loop)
+            if loop.verif_errors:
+                raise RuntimeError("exception reached the event loop: %s" % loop.verif_errors[0])
+        elif split == "whole":
             p.dataReceived(data)
         elif split == "bytewise":
             for i in range(n):
@@ -235,7 +250,10 @@ def rx(sx, server, fbd, compress, template, split):
     if exc is not None:
         return ["exception", type(exc).__name__]
     who = ep.who
-    wslib.drain(clock)
+    if clock is not None:
+        wslib.drain(clock)
+    else:
+        wslib.run_loop(loop)
     events, term, kw = oracle(sx, data if split != "bytewise" else data, server, compress)
     sx.cover("t:" + term)
     sx.cover("mode:drop" if fbd else "mode:handshake")
@@ -280,7 +298,13 @@ def rx(sx, server, fbd, compress, template, split):
             sx.check(ep.t.closed == "abort", "violation->tcp-dropped", info=info)
             sx.check(len(closes) == 0, "no-close-frame-when-failing-by-drop", info=info)
             sx.check(p.state == p.STATE_CLOSED, "state-closed-after-drop", info=info)
-            p.connectionLost(Failure(ConnectionDone()))
+            if fw == "asyncio":
+                p.connection_lost(None)
+                wslib.run_loop(loop)
+            else:
+                from twisted.python.failure import Failure
+                from twisted.internet.error import ConnectionDone
+                p.connectionLost(Failure(ConnectionDone()))
             oc = trace.of(who, "close")
             sx.check(len(oc) == 1, "onClose-once", info=info)
             if oc:
@@ -361,4 +385,9 @@ def units(tier):
                     for sp in splits:
                         U.append(("%s/%s/%s/%s/%s" % ("S" if server else "C", "drop" if fbd else "hs", name, "z" if compress else "-", sp),
                                   "rx", dict(server=server, fbd=fbd, compress=compress, template=tpl, split=sp), dict(weight=n)))
+                # the asyncio adapter's receive queue: a few templates, segments piled up in the queue or separated by a loop turn
+                if name in ("text-frag", "bin+ping+pong", "close-reason") and fbd == server:
+                    for sp in ("queued:3", "stepped:3", "queued:%d" % (n - 2)):
+                        U.append(("aio/%s/%s/%s/%s" % ("S" if server else "C", "drop" if fbd else "hs", name, sp), "rx",
+                                  dict(server=server, fbd=fbd, compress=False, template=tpl, split=sp, fw="asyncio"), dict(weight=n, framework="asyncio")))
     return U
